@@ -63,7 +63,8 @@ def rfc4884Overflow : List Layer → Bool
     * a layer that owns everything up to the end of the bytes it is handed (EthernetII, padded 802.1Q, ICMP, ICMPv6, 802.3,
       RadioTap — none of them has a length field of its own) does not sit inside such padding, and neither does a TCP
       segment whose pseudo-header length is the rest of the IP datagram;
-    * an extension structure follows an original datagram in an extensible ICMP message (RFC 4884);
+    * an extension structure follows an original datagram in an extensible ICMP message (RFC 4884), and only such a
+      message has its length field switched on (elsewhere that octet belongs to the identifier);
     * a PPPoE session packet carries a payload and no tags, a discovery packet tags (or nothing) and no payload;
     * a label at the top of the description (no enclosing layer, so libtins derives nothing) says itself whether it is
       the bottom of the stack. -/
@@ -77,11 +78,13 @@ def delimited (p : Option Layer) (k : Nat) : List Layer → Bool
       if padf then k == 0 && delimited (some l) (trailerSize l inner) rest else delimited (some l) k rest
     | .ip .. | .ip6 .. | .udp .. | .eapol .. => delimited (some l) 0 rest
     | .tcp .. => (walkPar p == .other || k == 0) && delimited (some l) k rest
-    | .icmp type _ _ _ _ _ _ _ exts =>
+    | .icmp type _ _ _ _ _ _ lenflag exts =>
       k == 0 && (exts.isEmpty || ((type == 3 || type == 11 || type == 12) && !rest.isEmpty)) &&
+        (!lenflag || type == 3 || type == 11 || type == 12) &&
         delimited (some l) (if exts.isEmpty then 0 else trailerSize l inner - extStructSize exts) rest
-    | .icmp6 type _ _ _ _ exts =>
+    | .icmp6 type _ _ _ lenflag exts =>
       k == 0 && (exts.isEmpty || ((type == 1 || type == 3) && !rest.isEmpty)) &&
+        (!lenflag || type == 1 || type == 3) &&
         delimited (some l) (if exts.isEmpty then 0 else trailerSize l inner - extStructSize exts) rest
     | .pppoe code _ _ tags =>
       if code == 0 then tags.isEmpty && delimited (some l) 0 rest else rest.isEmpty
